@@ -72,6 +72,7 @@ const stateDecls = `(declare-fun flagvI (Int) Bool)
 (declare-fun varvI (Int) Int)
 (declare-fun isvarI (Int) Bool)
 (declare-fun valofI (Int) Int)
+(declare-fun varvN (Int) Int)
 (declare-fun flagv (String) Bool)
 (declare-fun trainerv (String) Bool)
 (declare-fun varv (String) Int)
@@ -98,6 +99,17 @@ func inVarRange(n int64) bool {
 
 // stateApp applies a state function to an operand text.
 func stateApp(fn string, v interp.Value, coded bool) string {
+	if fn == "varv" {
+		// vars named by number: canonical numeric id
+		if sv, ok := v.(string); ok {
+			if n, ok := concreteNum(sv); ok {
+				return "(varvN " + interp.IntLit(n) + ")"
+			}
+		}
+		if ps := interp.Parts(v); len(ps) == 1 && ps[0].Kind == interp.PInt {
+			return "(varvN " + ps[0].Lit + ")"
+		}
+	}
 	if coded {
 		t, ok := interp.CodeTerm(v)
 		if !ok {
